@@ -309,11 +309,11 @@ def run_script(res, script, known, pid, scope_keys=None, variant="plain", label=
     gen = build_gen_driver()
     text = script.text()
     env = SAN_ENV if variant != "plain" else None
-    pi = run([exe], input=text, timeout=3600, env=env)
+    pi = run([exe], input=text, timeout=400, env=env)     # a script runs in about a second; a hang is a violation
     ia = parse_answers(pi.stdout)
     if pi.returncode != 0 or len(ia) != len(script.lines):
         idx = min(len(ia), len(script.lines) - 1)
-        res.violation("crash", "lexicon driver aborted at request %d" % idx,
+        res.violation("crash", "lexicon driver %s at request %d" % ("did not finish (endless loop)" if pi.returncode == 124 else "aborted", idx),
                       {"request": script.lines[idx], "stderr": pi.stderr[-3000:], "script_lines": script.lines[:idx + 1][-40:]})
         return {"n": 0, "oracle_errors": 0, "diffs": 0}
     orc = Oracle(known)
